@@ -136,6 +136,78 @@ end Inplace
 
 namespace C04
 
+/-! ### Event sequences only grow -/
+
+/-- Events produced so far (most recent first) by an in-place run, whatever its outcome. -/
+def traceOf : Inplace.Outcome w → List Ev
+  | .finished c => c.st.trace
+  | .stopped c => c.st.trace
+  | .interrupted c => c.st.trace
+  | .notOpened _ c => c.st.trace
+  | .outOfFuel c => c.st.trace
+
+/-- Events produced so far (most recent first) by a canonical run, whatever its outcome. -/
+def traceOfBf : Bf.Outcome w → List Ev
+  | .done s => s.trace
+  | .stopped s => s.trace
+  | .outOfFuel c => c.st.trace
+
+theorem input_trace (s : State w) (off : Int) : s.trace <:+ (s.input off).2.trace := by
+  unfold State.input
+  split <;> simp
+
+theorem output_trace (s : State w) (off : Int) : s.trace <:+ (s.output off).2.trace := by
+  unfold State.output
+  simp only
+  split
+  · split <;> simp
+  · simp
+
+theorem applyOp_trace (op : Op) (s : State w) : s.trace <:+ (Bf.applyOp op s).2.trace := by
+  cases op <;> simp [Bf.applyOp, State.wr, State.mov, input_trace, output_trace]
+
+/-- One canonical step only appends events. -/
+theorem bf_step_trace (c : Bf.Config w) :
+    match Bf.step c with
+    | .next c' => c.st.trace <:+ c'.st.trace
+    | .halt s => c.st.trace <:+ s.trace
+    | .stop s => c.st.trace <:+ s.trace := by
+  obtain ⟨cur, conts, st⟩ := c
+  cases cur with
+  | nil => cases conts <;> simp [Bf.step]
+  | cmd op rest =>
+    have := applyOp_trace op st
+    rcases h : Bf.applyOp op st with ⟨ok, s'⟩
+    rw [h] at this
+    cases ok <;> simpa [Bf.step, h] using this
+  | loop body rest =>
+    by_cases hz : st.rd 0 = 0#w <;> simp [Bf.step, hz]
+
+theorem bf_trace_start (f : Nat) (c : Bf.Config w) :
+    c.st.trace <:+ traceOfBf (Bf.runCfg f c) := by
+  induction f generalizing c with
+  | zero => exact List.suffix_refl _
+  | succ f ih =>
+    have := bf_step_trace c
+    cases hs : Bf.step c with
+    | next c' =>
+      rw [hs] at this; rw [Bf.runCfg_succ_next hs]; exact List.IsSuffix.trans this (ih c')
+    | halt s => rw [hs] at this; rw [Bf.runCfg_succ_halt hs]; exact this
+    | stop s => rw [hs] at this; rw [Bf.runCfg_succ_stop hs]; exact this
+
+/-- The canonical event sequence after `f` steps is an initial part of the one after `f + g`. -/
+theorem bf_trace_add (f g : Nat) (c : Bf.Config w) :
+    traceOfBf (Bf.runCfg f c) <:+ traceOfBf (Bf.runCfg (f + g) c) := by
+  induction f generalizing c with
+  | zero => rw [Nat.zero_add]; exact bf_trace_start g c
+  | succ f ih =>
+    have e : f + 1 + g = (f + g) + 1 := by omega
+    rw [e]
+    cases hs : Bf.step c with
+    | next c' => rw [Bf.runCfg_succ_next hs, Bf.runCfg_succ_next hs]; exact ih c'
+    | halt s => rw [Bf.runCfg_succ_halt hs, Bf.runCfg_succ_halt hs]; exact List.suffix_refl _
+    | stop s => rw [Bf.runCfg_succ_stop hs, Bf.runCfg_succ_stop hs]; exact List.suffix_refl _
+
 /-! ### Bounded advance of the canonical machine -/
 
 /-- `Adv cc cc' n`: the canonical machine goes from `cc` to `cc'` in exactly `n ≤ 2` steps, and in
@@ -583,6 +655,87 @@ theorem fwd_sim {code : List Kind} {limited : Bool} (f : Nat) :
     | notOpened p c =>
       rw [hstep] at hs
       exact hs.elim
+
+/-! ### Termination in limited mode -/
+
+/-- In limited mode every `]` consumes budget, and between two `]` the program counter strictly
+increases and stays within the text: the run returns within
+`budget * (length + 2) + (length + 1 - pc) + 1` steps. -/
+theorem limited_fuel {code : List Kind} (f : Nat) :
+    ∀ {ic : Inplace.Cfg w} {cc : Bf.Config w}, Rel code ic cc →
+      ic.budget * (code.length + 2) + (code.length + 1 - ic.pc) < f →
+      (Inplace.runCfg code.toArray true f ic).Halted := by
+  induction f with
+  | zero => intro ic cc _ h; omega
+  | succ f ih =>
+    intro ic cc h hf
+    have hs := step_sim (limited := true) h
+    cases hstep : Inplace.step code.toArray true ic with
+    | next ic' =>
+      rw [hstep] at hs
+      obtain ⟨n, cc', ha, hrel, hcase⟩ := hs
+      rw [Inplace.runCfg_succ_next hstep]
+      apply ih hrel
+      have h1 := hrel.pc_le
+      have h2 := h.pc_le
+      rcases hcase with ⟨_, hpc, hbud⟩ | ⟨_, hbud, hpos⟩
+      · rw [hbud]
+        generalize ic.budget * (code.length + 2) = X at hf ⊢
+        omega
+      · have hp := hpos rfl
+        obtain ⟨b', hb'⟩ : ∃ b', ic.budget = b' + 1 := ⟨ic.budget - 1, by omega⟩
+        simp only [if_true] at hbud
+        rw [hb'] at hbud hf
+        rw [hbud, Nat.add_sub_cancel]
+        rw [Nat.succ_mul] at hf
+        generalize b' * (code.length + 2) = X at hf ⊢
+        omega
+    | finished c => rw [Inplace.runCfg_succ_finished hstep]; trivial
+    | stopped c => rw [Inplace.runCfg_succ_stopped hstep]; trivial
+    | interrupted c => rw [Inplace.runCfg_succ_interrupted hstep]; trivial
+    | notOpened p c => rw [Inplace.runCfg_succ_notOpened hstep]; trivial
+
+/-! ### Whole runs from the initial configurations -/
+
+section Runs
+variable {code : Array Kind} {p : Prog}
+
+/-- `back_sim` for `Inplace.run` on a balanced program. -/
+theorem back_run (h : Bf.tree code.toList = some p) (limited : Bool) (b f' : Nat) (env : Env) :
+    BackSim (w := w) code.toList limited { cur := p, conts := [], st := State.init env }
+      (Inplace.run code limited b f' env) := by
+  have := back_sim (limited := limited) f' (Rel.init (w := w) h b env)
+  simpa [Inplace.run] using this
+
+/-- `FwdSim` phrased with `Inplace.run`. -/
+def FwdRun (code : Array Kind) (limited : Bool) (b : Nat) (env : Env) : Bf.Outcome w → Prop
+  | .done s => ∃ f' c, Inplace.run code limited b f' env = .finished c ∧ c.st = s
+  | .stopped s => ∃ f' c, Inplace.run code limited b f' env = .stopped c ∧ c.st = s
+  | .outOfFuel cfg => ∃ f' c, Inplace.run code limited b f' env = .outOfFuel c ∧ c.st = cfg.st
+
+/-- `fwd_sim` for `Bf.run` on a balanced program. -/
+theorem fwd_run (h : Bf.tree code.toList = some p) (limited : Bool) (b f : Nat) (env : Env)
+    (hb : limited = true → f ≤ b) :
+    FwdRun (w := w) code limited b env (Bf.run f p env) := by
+  have := fwd_sim (limited := limited) f _ (Rel.init (w := w) h b env) rfl hb
+  unfold Bf.run
+  cases hr : Bf.runCfg f { cur := p, conts := [], st := State.init (w := w) env } with
+  | done s => rw [hr] at this; simpa [FwdSim, FwdRun, Inplace.run] using this
+  | stopped s => rw [hr] at this; simpa [FwdSim, FwdRun, Inplace.run] using this
+  | outOfFuel c => rw [hr] at this; simpa [FwdSim, FwdRun, Inplace.run] using this
+
+/-- `limited_fuel` for `Inplace.run` on a balanced program. -/
+theorem limited_run_halted (h : Bf.tree code.toList = some p) (b f' : Nat) (env : Env)
+    (hf : (b + 1) * (code.size + 2) ≤ f') :
+    (Inplace.run (w := w) code true b f' env).Halted := by
+  have := limited_fuel (w := w) f' (Rel.init (w := w) h b env) (by
+    simp only [Array.length_toList]
+    rw [Nat.succ_mul] at hf
+    generalize b * (code.size + 2) = X at hf ⊢
+    omega)
+  simpa [Inplace.run] using this
+
+end Runs
 
 end C04
 end Hpbf
